@@ -128,7 +128,9 @@ def main(run):
     quick = run.tier == "quick"
     probe_known(run, work)
     n = 160 if quick else 3000
-    ok = run.proof("Props/C01.v")
+    import isel
+    run.extra["isel_tables"] = isel.gen_tables()
+    ok = run.proof("Props/C01.v", extra_targets=["Core/Typing.vo"])
     progs, feats = gen_programs(run, n, 30 if quick else 60, 3 if quick else 5, False)
     results = compile_run_all(progs, work)
     observed = []
@@ -165,7 +167,20 @@ def main(run):
     run.extra["skipped_undefined_or_fuel"] = nskip
     if not ok:
         where, log = run.proof_failure
-        run.violation("proof:C01:" + where, "Props/C01 no longer checks (%s)" % where, {"where": where, "log": log}, no_input=True)
+        found = False
+        try:
+            for w in isel.search("qbe"):
+                found = True
+                run.violation("isel:qbe:%s" % w.get("key"), "QBE instruction selection for %s does not implement the reference semantics (operands %s: expected %s, machine result %s)"
+                              % (w.get("key"), w.get("operands"), w.get("expected"), w.get("got")), w, no_input=(w.get("operands") is None))
+        except Exception as e:
+            log += "\n(isel.search failed: %r)" % (e,)
+        if not found:
+            run.violation("proof:C01:" + where, "Props/C01 no longer checks (%s)" % where, {"where": where, "log": log}, no_input=True)
+
+def setup():
+    import isel
+    isel.gen_tables()
 
 def replay(run, path):
     print(open(path).read())
